@@ -14,7 +14,9 @@ BUDGET = {'quick': 20000, 'thorough': 1000000}
 WALL = {'quick': 100, 'thorough': 1500}
 CHUNK = 50
 REQUIRED_PROBES = ['gather_steps', 'alltoall_steps', 'equal_grid_extents', 'grid_extent_1', 'family_driver', 'family_random', 'several_2d_groups']
-RULE = ('case = (3-D/4-D shape, 2-D process grid incl. equal extents and extents of 1, grouping of '
+RULE = ("Every check: in 12% of the cases one or two bystander ranks share the simulated job and the code under test runs on world.Split(...); one case in HASHSEED_EVERY is re-run in fresh interpreters under other string-hash seeds and every rank's trace (collectives, data sent, result) must agree. "
+        'Also: layout sets listed in any order, constructor start layout other than where the data is (30%), a second array moved on the same swapper between the steps (25%), arrays handed over as short-lived row views of a pool (6%; refusal tolerated), fresh str objects for the names. '
+        'case = (3-D/4-D shape, 2-D process grid incl. equal extents and extents of 1, grouping of '
         'orderings into handlers with their process counts [driver family: the groupings built by '
         'fullSimulation.py and the upstream tests plus extra orderings; random family: 1-4 groups of '
         'kind 2-D / 1-D over direction 0 / 1-D over direction 1 / replicated], start layout, walk of '
